@@ -13,8 +13,11 @@ from collections import Counter
 from typing import Any, Callable, Optional
 
 VERIF = os.path.dirname(os.path.dirname(os.path.abspath(__file__)))
-EVIDENCE_DIR = os.path.join(VERIF, "evidence")
-REPLAY_DIR = os.path.join(VERIF, "replays")
+# experiments against a scratch copy of the repository (MSMART_REPO=<dir>, used by the seed / benign sweeps) must not overwrite
+# the evidence of the real tree: they write to a scratch directory unless VERIF_EVIDENCE_DIR says otherwise
+_SCRATCH = os.environ.get("MSMART_REPO", "/repo").rstrip("/") != "/repo"
+EVIDENCE_DIR = os.environ.get("VERIF_EVIDENCE_DIR") or (os.path.join("/tmp", "verif-scratch-evidence") if _SCRATCH else os.path.join(VERIF, "evidence"))
+REPLAY_DIR = os.path.join(EVIDENCE_DIR, "replays") if _SCRATCH else os.path.join(VERIF, "replays")
 KNOWN = os.path.join(VERIF, "known_findings.json")
 
 
@@ -46,6 +49,11 @@ def unjson(o):
     return o
 
 
+import weakref  # noqa: E402
+
+_LIVE: "weakref.WeakSet" = weakref.WeakSet()      # Stats objects alive in this process (partial results of a stopped shard)
+
+
 class Stats:
     """What one shard (or the whole run) covered.  Mergeable."""
 
@@ -68,6 +76,7 @@ class Stats:
         self.caps: list[str] = []
         self.extra: Counter = Counter()
         self.notes: dict = {}
+        _LIVE.add(self)
 
     def ev(self, key, outcome: str, nontrivial: bool = True, sample=None) -> None:
         self.evaluations += 1
@@ -137,15 +146,45 @@ def match_known(prop: str, signature: str, known: list[dict]) -> Optional[dict]:
 
 
 # ---------------------------------------------------------------- sharded run
+# (Stats objects alive in this process: defined next to class Stats)
+
+# a shard that runs this much longer than any shard does on the unchanged tree is stopped (its partial results are kept)
+SHARD_BUDGET = {"quick": float(os.environ.get("VERIF_SHARD_BUDGET_QUICK", "240")),
+                "thorough": float(os.environ.get("VERIF_SHARD_BUDGET_THOROUGH", "14400"))}
+WORKER_MEM = int(os.environ.get("VERIF_WORKER_MEM_GB", "4")) << 30
+
+
 def _worker(args):
     modname, shard, tier = args
+    _LIVE.clear()
+    from . import harness as _h
     try:
         import importlib
         mod = importlib.import_module(modname)
-        st = mod.run_shard(shard, tier)
+        _h.arm_shard_budget(SHARD_BUDGET.get(tier, 900))
+        try:
+            st = mod.run_shard(shard, tier)
+        finally:
+            _h.arm_shard_budget(None)
         return ("ok", st)
+    except _h.ShardBudgetExceeded:
+        _h.arm_shard_budget(None)
+        part = Stats()
+        for s in list(_LIVE):
+            if s is not part:
+                part.merge(s)
+        part.caps.append(f"shard {shard!r} stopped after {SHARD_BUDGET.get(tier, 900):.0f} s (partial results kept)")
+        return ("timeout", part)
     except BaseException as e:  # noqa: BLE001
         return ("err", f"shard {shard!r}: {type(e).__name__}: {e}\n{traceback.format_exc()}")
+
+
+def _init_worker():
+    try:
+        import resource
+        resource.setrlimit(resource.RLIMIT_AS, (WORKER_MEM, WORKER_MEM))
+    except Exception:  # noqa: BLE001
+        pass
 
 
 def run_check(mod, tier: str, seed: int, workers: Optional[int] = None) -> int:
@@ -162,12 +201,15 @@ def run_check(mod, tier: str, seed: int, workers: Optional[int] = None) -> int:
         pool = None
     else:
         ctx = mp.get_context("fork")
-        pool = ctx.Pool(min(workers, len(shards)))
+        pool = ctx.Pool(min(workers, len(shards)), initializer=_init_worker)
         results = pool.imap_unordered(_worker, args, chunksize=1)
     try:
         for kind, val in results:
             if kind == "err":
                 errors.append(val)
+            elif kind == "timeout":
+                total.merge(val)
+                errors.append(val.caps[-1])
             else:
                 total.merge(val)
     finally:
